@@ -1,8 +1,11 @@
 //! C12 — low-index subgroup enumeration: drives the real `coset_tables`.
 use rust_dsymbols::fpgroups::cosets::{coset_tables, CosetTable};
 use rust_dsymbols::fpgroups::free_words::FreeWord;
+use rust_dsymbols::dsyms::{DSym, PartialDSym};
+use rust_dsymbols::fundamental_group::fundamental_group;
+use verif_harness::dsgen::{random_dset, random_vs};
 use verif_harness::groups::corpus;
-use verif_harness::{enc_lists, Ctx};
+use verif_harness::{enc_lists, Ctx, Rng};
 
 fn fw(raw: &[isize]) -> FreeWord {
     FreeWord::new(raw.iter().cloned())
@@ -15,10 +18,19 @@ fn view(t: &CosetTable) -> Vec<Vec<isize>> {
 }
 
 fn case(ctx: &mut Ctx, name: &str, nr_gens: usize, rels: &[Vec<isize>], k: usize, kind: &str) {
+    case_op(ctx, "lowindex", name, nr_gens, rels, k, kind)
+}
+
+/// validity-only: the Spec uses no census (presentations too large for it)
+fn case_nc(ctx: &mut Ctx, name: &str, nr_gens: usize, rels: &[Vec<isize>], k: usize, kind: &str) {
+    case_op(ctx, "lowindex_nc", name, nr_gens, rels, k, kind)
+}
+
+fn case_op(ctx: &mut Ctx, op: &str, name: &str, nr_gens: usize, rels: &[Vec<isize>], k: usize, kind: &str) {
     let nt = if k >= 2 { "nt " } else { "" };
-    let tags = format!("{nt}gens={nr_gens} k={k} kind={kind}");
+    let tags = format!("{nt}gens={} k={k} kind={kind}", nr_gens.min(9));
     ctx.case(
-        "lowindex",
+        op,
         &tags,
         || format!("{} {} {} {}", name, nr_gens, enc_lists(rels), k),
         || {
@@ -32,6 +44,30 @@ fn case(ctx: &mut Ctx, name: &str, nr_gens: usize, rels: &[Vec<isize>], k: usize
             s
         },
     );
+}
+
+/// presentation of the fundamental group of a D-symbol, as the library computes it
+fn fg_presentation<T: DSym>(ds: &T) -> (usize, Vec<Vec<isize>>) {
+    let g = fundamental_group(ds);
+    (g.nr_generators(), g.relators.iter().map(|w| w.iter().cloned().collect()).collect())
+}
+
+fn sym_cases(ctx: &mut Ctx, sym: &str, ks: &[usize], kind: &str) {
+    let ds: PartialDSym = sym.parse().expect("hard-coded symbol");
+    let (ng, rels) = fg_presentation(&ds);
+    let name: String = sym.chars().map(|c| if c == ' ' { '_' } else { c }).collect();
+    for &k in ks {
+        case_nc(ctx, &name, ng, &rels, k, kind);
+    }
+}
+
+fn random_relator(rng: &mut Rng, g: usize, len: usize) -> Vec<isize> {
+    (0..len)
+        .map(|_| {
+            let x = rng.range(1, g as i64) as isize;
+            if rng.chance(1, 2) { x } else { -x }
+        })
+        .collect()
 }
 
 fn pw(w: &[isize], k: usize) -> Vec<isize> {
@@ -116,6 +152,73 @@ fn main() {
             case(&mut ctx, "Z4+two-killed", 3, &[vec![1], vec![2, 2, 2, 2], vec![3]], k, "redundant-generator");
             case(&mut ctx, "Z4+two-killed'", 3, &[vec![2], vec![3], vec![1, 1, 1, 1]], k, "redundant-generator");
             case(&mut ctx, "c=1,c=a^-1b^2", 3, &[vec![3], vec![3, -1, 2, 2]], k, "redundant-generator");
+        }
+    }
+
+    // (1b) validity-only cases on presentations beyond the census: many generators / long
+    //      relators at a moderate index (a deduction queue that does not rescan a row emits
+    //      complete tables in which a relator does not close only there)
+    {
+        // the four symbols on which the "never re-queue a row" change was first visible
+        let ks: Vec<usize> = if th { (1..=6).collect() } else { (1..=4).collect() };
+        sym_cases(&mut ctx, "<1.1:8:1 2 3 4 5 6 8,1 3 5 7 8,2 4 6 8:3 4 4 3,8>", &ks, "dsym2d");
+        sym_cases(&mut ctx, "<1.1:4 3:2 4,2 4,3 4,2 4:4 4,4,6>", &ks, "dsym3d");
+        sym_cases(&mut ctx, "<1.1:4 3:1 4 3,2 4,1 4 3,3 4:4,4,4 3>", &ks, "dsym3d");
+        let ks9: Vec<usize> = if th { (1..=9).collect() } else { (1..=6).collect() };
+        sym_cases(&mut ctx, "<1.1:3:1 2 3,1 3,2 3:3 10,3>", &ks9, "dsym2d");
+        // seeded samples: 2D symbols with 6-8 chambers, 3D symbols with 2-4 chambers
+        let mut rng = ctx.rng(1200);
+        let n2 = if th { 60 } else { 12 };
+        for i in 0..n2 {
+            let n = 6 + rng.below(3);
+            if let Some(t) = random_dset(&mut rng, 2, n, true) {
+                let t = random_vs(&t, &mut rng, &[1, 1, 2, 3]);
+                let ds = t.to_partial_dsym();
+                let (ng, rels) = fg_presentation(&ds);
+                let kmax = if th { 6 } else { 4 };
+                for k in [kmax - 1, kmax] {
+                    case_nc(&mut ctx, &format!("rand2d-{i}-n{n}"), ng, &rels, k, "dsym2d");
+                }
+            }
+        }
+        let n3 = if th { 60 } else { 12 };
+        for i in 0..n3 {
+            let n = 2 + rng.below(3);
+            if let Some(t) = random_dset(&mut rng, 3, n, true) {
+                let t = random_vs(&t, &mut rng, &[1, 1, 2, 3]);
+                let ds = t.to_partial_dsym();
+                let (ng, rels) = fg_presentation(&ds);
+                let kmax = if th { 6 } else { 4 };
+                for k in [kmax - 1, kmax] {
+                    case_nc(&mut ctx, &format!("rand3d-{i}-n{n}"), ng, &rels, k, "dsym3d");
+                }
+            }
+        }
+        // long-relator abstract presentations
+        let tri = |l: usize, m: usize, n: usize| vec![pw(&[1], l), pw(&[2], m), pw(&[1, 2], n)];
+        let kt = if th { 9 } else { 8 };
+        for k in 5..=kt {
+            case_nc(&mut ctx, "triangle-2-3-7", 2, &tri(2, 3, 7), k, "long-relators");
+            case_nc(&mut ctx, "triangle-2-4-5", 2, &tri(2, 4, 5), k, "long-relators");
+            case_nc(&mut ctx, "triangle-3-3-4", 2, &tri(3, 3, 4), k, "long-relators");
+        }
+        let surf = vec![[comm(1, 2), comm(3, 4)].concat()];
+        for k in 1..=(if th { 5 } else { 4 }) {
+            case_nc(&mut ctx, "surface-genus-2", 4, &surf, k, "long-relators");
+        }
+        let mut rng = ctx.rng(1201);
+        let nr = if th { 150 } else { 30 };
+        for i in 0..nr {
+            let g = 3 + rng.below(2);
+            let nrel = 3 + rng.below(3);
+            let rels: Vec<Vec<isize>> = (0..nrel)
+                .map(|_| {
+                    let len = 4 + rng.below(7);
+                    random_relator(&mut rng, g, len)
+                })
+                .collect();
+            let kmax = if th { 5 } else { 4 };
+            case_nc(&mut ctx, &format!("random-{i}"), g, &rels, kmax, "random-presentation");
         }
     }
 
